@@ -20,6 +20,23 @@ def main():
             if status != "CAUGHT":
                 missed += 1
             print("%-8s %-45s %s %s" % (prop, os.path.basename(m), status, ",".join(clauses)[:160]), flush=True)
+    # seeded changes written by independent sub-agents (seeded/<name>/patch.diff + meta.json)
+    import json
+    for d in sorted(glob.glob(os.path.join(ROOT, "seeded", "*"))):
+        meta = os.path.join(d, "meta.json")
+        if not os.path.exists(meta):
+            continue
+        m = json.load(open(meta))
+        prop = m["property"]
+        if sys.argv[1:] and prop not in sys.argv[1:]:
+            continue
+        for chk in m.get("checks", [prop]):
+            rc, out = run_on_mutant(os.path.join(d, "patch.diff"), chk, quiet=True)
+            clauses = sorted(set(re.findall(r"^VIOLATION .*?clause=(\S+)", out, re.M)))
+            status = "CAUGHT" if rc == 1 and clauses else ("NOT-APPLIED" if rc == 3 else "MISSED rc=%d" % rc)
+            if status != "CAUGHT":
+                missed += 1
+            print("%-8s %-45s %s %s" % (chk, "seeded/" + os.path.basename(d), status, ",".join(clauses)[:160]), flush=True)
     sys.exit(1 if missed else 0)
 
 
